@@ -233,6 +233,14 @@ def _verify_reported(ck: Checker, rule: str) -> None:
     for n in checks:
         hs = [g.nodes[d] for lab, d in n.succ if lab == "exc" and g.nodes[d].kind == "handler"]
         fmt = [h for h in hs if h.ast.type is None or any(t in norm(h.ast.type) for t in ("ObjectFormatError", "Exception", "BaseException"))]
+        # nested try: the inner handler may take FileNotFoundError only and let the rest through to an outer one
+        seen_h = {h.id for h in hs}
+        for h in list(hs):
+            for lab, d in h.succ:
+                pass
+        outer = [x for x in g.nodes.values() if x.kind == "handler" and x.id not in seen_h and n.loops and n.loops[-1] in x.loops and (x.ast.type is None or any(t in norm(x.ast.type) for t in ("ObjectFormatError", "Exception", "BaseException")))]
+        if not fmt and outer:
+            fmt = outer
         if not fmt:
             ck.ok(rule, add, n, "a failed post-copy check propagates to the caller")
             continue
@@ -243,6 +251,8 @@ def _verify_reported(ck: Checker, rule: str) -> None:
                 if a.kind != "test":
                     return False
                 t = norm(a.ast)
+                if t.startswith("isinstance(") and "FileNotFoundError" in t and "ObjectFormatError" not in t and lab == "T":
+                    return True  # the object is simply not there (its copy failed and was reported by the copy itself)
                 return (t == "on_error is not None" and lab == "F") or (t == "on_error is None" and lab == "T") or (t == "on_error" and lab == "F")
 
             stops = set(n.loops[-1:]) | {g.exit}
